@@ -15,6 +15,10 @@ def main(argv=None):
     ap.add_argument("--rebaseline", action="store_true", help="development: record proved obligations + rlimit use")
     a = ap.parse_args(argv)
     seed = int(os.environ.get("VERIF_SEED", "0") or 0)
+    if os.environ.get("SKV_DUMP_AFTER"):  # development aid: where is the time going?
+        import faulthandler
+
+        faulthandler.dump_traceback_later(int(os.environ["SKV_DUMP_AFTER"]), exit=True)
     from . import ctx
 
     sys.path.insert(0, ctx.REPO)
